@@ -545,7 +545,8 @@ def flatten_conditionals(fn: ast.AST) -> None:
                     # conditional re-binding of a variable that certainly has a value -> conditional expression
                     if not st.orelse and len(st.body) == 1 and isinstance(st.body[0], ast.Assign) and len(st.body[0].targets) == 1 and isinstance(st.body[0].targets[0], ast.Name):
                         t = st.body[0].targets[0].id
-                        definite = t in _params(fn) or any(isinstance(p, ast.Assign) and any(isinstance(x, ast.Name) and x.id == t for x in p.targets) for p in seq[:i])
+                        loop_owner = next((n for n in ast.walk(fn) if isinstance(n, (ast.For, ast.AsyncFor)) and n.body is seq), None)
+                        definite = t in _params(fn) or any(isinstance(p, ast.Assign) and any(isinstance(x, ast.Name) and x.id == t for x in p.targets) for p in seq[:i]) or (loop_owner is not None and any(isinstance(x, ast.Name) and x.id == t for x in ast.walk(loop_owner.target)))
                         if definite and not any(isinstance(x, FUNC + (ast.Lambda,)) for x in ast.walk(st)):
                             seq[i] = ast.copy_location(ast.Assign(targets=[st.body[0].targets[0]], value=ast.IfExp(test=st.test, body=st.body[0].value, orelse=ast.Name(id=t, ctx=ast.Load()))), st)
                             changed = True
@@ -1398,6 +1399,52 @@ def fold_inplace_sort(fn: ast.AST) -> None:
                 k -= 1
 
 
+def split_validating_loops(fn: ast.AST) -> None:
+    """``acc = []`` ; ``for x in M: if p(x): acc.append(e(x)) else: return R``  ->  ``if any(not p(x) for x in M): return R`` ;
+    ``acc = [e(x) for x in M]`` - for a materialised local sequence M (bound once to a tuple/list/sorted(..) value) and call-free
+    p, e: checking everything first and collecting afterwards visits the same elements with the same outcome (the partial
+    accumulator of the failing run is a local nobody sees)."""
+    materialised = {}
+    for n in _own_nodes(fn):
+        if isinstance(n, ast.Assign) and len(n.targets) == 1 and isinstance(n.targets[0], ast.Name):
+            v = n.value
+            ok = isinstance(v, (ast.Tuple, ast.List, ast.ListComp)) or (isinstance(v, ast.Call) and isinstance(v.func, ast.Name) and v.func.id in ('tuple', 'list', 'sorted', 'frozenset'))
+            materialised.setdefault(n.targets[0].id, []).append(ok)
+    stores = {}
+    for n in ast.walk(fn):
+        if isinstance(n, ast.Name) and isinstance(n.ctx, (ast.Store, ast.Del)):
+            stores[n.id] = stores.get(n.id, 0) + 1
+    for seq in list(_code_blocks(fn)):
+        for k in range(len(seq) - 1):
+            init, loop = seq[k], seq[k + 1]
+            if not (isinstance(init, ast.Assign) and len(init.targets) == 1 and isinstance(init.targets[0], ast.Name) and isinstance(init.value, ast.List) and not init.value.elts):
+                continue
+            acc = init.targets[0].id
+            if not (isinstance(loop, ast.For) and not loop.orelse and isinstance(loop.iter, ast.Name) and materialised.get(loop.iter.id) == [True] and stores.get(loop.iter.id) == 1 and len(loop.body) == 1 and isinstance(loop.body[0], ast.If)):
+                continue
+            test, body, orelse = loop.body[0].test, loop.body[0].body, loop.body[0].orelse
+            if len(body) == 1 and isinstance(body[0], ast.Return) and len(orelse) == 1:
+                test, body, orelse = nnf(test, False), orelse, body
+            if not (len(body) == 1 and len(orelse) == 1 and isinstance(orelse[0], ast.Return) and isinstance(body[0], ast.Expr) and isinstance(body[0].value, ast.Call) and isinstance(body[0].value.func, ast.Attribute) and body[0].value.func.attr == 'append' and isinstance(body[0].value.func.value, ast.Name) and body[0].value.func.value.id == acc and len(body[0].value.args) == 1):
+                continue
+            elt = body[0].value.args[0]
+            ret = orelse[0]
+            if _has_call(test) or _has_call(elt) or any(_has_effect(x) for x in ast.walk(test)) or any(_has_effect(x) for x in ast.walk(elt)) or (ret.value is not None and not _is_name_pure(ret.value)):
+                continue
+            if acc in _names(test) or acc in _names(elt) or (ret.value is not None and acc in _names(ret.value)):
+                continue
+            loop_vars = {x.id for x in ast.walk(loop.target) if isinstance(x, ast.Name)}
+            if any(isinstance(n, ast.Name) and n.id in loop_vars for s_ in seq[k + 2:] for n in ast.walk(s_)):
+                continue
+            gen = lambda e: [ast.comprehension(target=_clone(loop.target), iter=_clone(loop.iter), ifs=[], is_async=0)]  # noqa: E731
+            guard = ast.If(test=ast.Call(func=ast.Name(id='any', ctx=ast.Load()), args=[ast.GeneratorExp(elt=nnf(test, False), generators=gen(None))], keywords=[]), body=[ret], orelse=[])
+            collect = ast.Assign(targets=[init.targets[0]], value=ast.ListComp(elt=elt, generators=gen(None)))
+            seq[k:k + 2] = [ast.copy_location(guard, loop), ast.copy_location(collect, init)]
+            for x in (seq[k], seq[k + 1]):
+                ast.fix_missing_locations(x)
+            break
+
+
 def split_tuple_assignments(fn: ast.AST) -> None:
     """``a, b = (A, B)`` is ``a = A`` ; ``b = B`` when no target is read by a later element (and nothing is starred)."""
     for seq in list(_blocks(fn)):
@@ -1549,6 +1596,37 @@ def split_final_rebindings(fn: ast.AST) -> None:
             st.targets[0].id = new
             for r in rest:
                 for n in ast.walk(r):
+                    if isinstance(n, ast.Name) and n.id == x:
+                        n.id = new
+
+
+def split_loop_rebindings(fn: ast.AST) -> None:
+    """A loop variable re-bound in the loop body by one unconditional statement (``for k, v in ..: v = f(v); use(v)``) is, from
+    there to the end of the body, a variable of its own - the next iteration binds the loop variable afresh - provided it is
+    not read after the loop."""
+    counter = 0
+    closures = [n for n in ast.walk(fn) if n is not fn and isinstance(n, FUNC + (ast.Lambda,))]
+    for loop in [n for n in ast.walk(fn) if isinstance(n, ast.For) and not n.orelse]:
+        targets = {x.id for x in ast.walk(loop.target) if isinstance(x, ast.Name)}
+        after = {id(n) for s_ in _stmts_after(fn, loop) if s_ is not loop for n in ast.walk(s_)}
+        for k, st in enumerate(loop.body):
+            if not (isinstance(st, ast.Assign) and len(st.targets) == 1 and isinstance(st.targets[0], ast.Name) and st.targets[0].id in targets):
+                continue
+            x = st.targets[0].id
+            stores = [n for n in ast.walk(fn) if isinstance(n, ast.Name) and n.id == x and isinstance(n.ctx, (ast.Store, ast.Del))]
+            if len(stores) != 2:
+                continue  # the loop target and this statement only
+            if any(isinstance(n, ast.Name) and n.id == x and id(n) in after for n in ast.walk(fn)):
+                continue
+            if any(x in _names(c) or x in _params(c) for c in closures) or x in _params(fn):
+                continue
+            if any(isinstance(n, (ast.Continue,)) for s_ in loop.body[k + 1:] for n in ast.walk(s_)) and False:
+                continue
+            counter += 1
+            new = f'{x}__l{counter}'
+            st.targets[0].id = new
+            for s_ in loop.body[k + 1:]:
+                for n in ast.walk(s_):
                     if isinstance(n, ast.Name) and n.id == x:
                         n.id = new
 
@@ -1932,6 +2010,7 @@ def normal_form(fn: ast.AST, sigs: typing.Optional[SignatureIndex] = None, owner
         boolean_algebra(node)
         loops_to_comprehensions(node)
         split_tuple_assignments(node)
+        split_validating_loops(node)
         fold_inplace_sort(node)
         unfold_for_else(node)
         unfold_generator_loops(node)
@@ -1943,6 +2022,7 @@ def normal_form(fn: ast.AST, sigs: typing.Optional[SignatureIndex] = None, owner
         merge_phi_copies(node)
         split_versions(node)
         split_final_rebindings(node)
+        split_loop_rebindings(node)
         split_arm_variables(node)
         sort_independent_assignments(node)
         hoist_nested_defs(node)
